@@ -27,9 +27,23 @@ VALUES = {"int": {"a": I(3), "b": I(2)}, "real": {"a": R(5, 2), "b": R(1, 2)},
           "rvec": {"a": L(R(1, 2), R(3, 2), R(5, 2)), "b": L(R(3, 2), R(1, 2), R(2, 1))},
           "mat": {"a": L(L(I(1), I(2)), L(I(3), I(4))), "b": L(L(I(5), I(6)), L(I(7), I(8)))},
           "empty": {"a": L(), "b": L()},
+          # reals whose squares, sums and products are whole numbers (integer/real kind of a compiled result)
+          "wreal": {"a": R(2, 1), "b": R(3, 1)},
+          "wrvec": {"a": L(R(1, 1), R(2, 1), R(3, 1)), "b": L(R(2, 1), R(2, 1), R(4, 1))},
           "str": {"a": S("xy"), "b": S("q")}}
 CLASSES = list(VALUES)
 ADMITTED = [c for c in CLASSES if c != "str"]
+
+
+NESTED_MARK = "nested-reduction"
+
+
+def is_nested_reduction(e):
+    def has(e, top):
+        if e["k"] == "ad" and e["a"]["k"] == "var" and not top:
+            return True
+        return any(isinstance(e.get(key), dict) and has(e[key], False) for key in ("a", "b"))
+    return has(e, True)
 
 
 def expressions(rnd, n_deep):
@@ -45,6 +59,15 @@ def expressions(rnd, n_deep):
         for op in ops:
             out.append({"k": "ad", "adv": adv, "op": op, "a": a})
     d1 = list(out)
+    # reductions and scans of a VARIABLE nested inside a larger expression (the per-node caches see them as inner nodes)
+    nested = []
+    for adv in ("over", "scan"):
+        for op in ("+", "*", "|"):
+            red = {"k": "ad", "adv": adv, "op": op, "a": a}
+            nested += [{"k": "dy", "op": "%", "a": red, "b": lit(I(2))}, {"k": "dy", "op": "+", "a": red, "b": b},
+                       {"k": "dy", "op": "*", "a": lit(I(2)), "b": red}, {"k": "mo", "op": "-", "a": red},
+                       {"k": "dy", "op": "-", "a": red, "b": {"k": "ad", "adv": "over", "op": "+", "a": b}}]
+    out += nested
     deep = []
     while len(deep) < n_deep:
         k = rnd.random()
@@ -121,15 +144,42 @@ def run(tier, seed):
         rnd.shuffle(sims)
         hists += [(start, h) for h in sims[:(250 if not thorough else 3000)]] + [(start, h) for h in []]
     hists = [h if isinstance(h, tuple) else ("MCStartA", h) for h in hists]
+    # focused exhaustive tree: two classes (an atom class and a list class), all histories of 4 steps; kept: those that evaluate
+    # twice at the same position with a rebinding of a in between (atom <-> list), replayed with the nested-reduction expressions
+    focus = []
+    for atom, lst in (("int", "ivec"), ("wreal", "wrvec")):
+        with open(os.path.join(d, "MCCache.tla"), "w") as f:
+            f.write('---- MODULE MCCache ----\nEXTENDS KgCache\n'
+                    'MCStartF == [v \\in {"a","b"} |-> IF v = "a" THEN "%s" ELSE "%s"]\n====\n' % (lst, atom))
+        p = os.path.join(d, "focus.cfg")
+        with open(p, "w") as f:
+            f.write('INIT Init\nNEXT Next\nCONSTANTS\n  Classes = {"%s", "%s"}\n  Admitted = {"%s", "%s"}\n  Start <- MCStartF\n  MaxOps = 4\n'
+                    'INVARIANT Emit\nCHECK_DEADLOCK FALSE\n' % (atom, lst, atom, lst))
+        rf = run_tlc(os.path.join(d, "MCCache.tla"), p, workers=1, timeout=3000)
+        ev.add_tlc(f"KgCache.tla focused tree ({atom}/{lst}): all histories of 4 steps", rf)
+        for h in [q for q in rf.prints if isinstance(q, list)]:
+            evs = [i for i, st in enumerate(h) if st["a"] != "rebind"]
+            ok = any(h[i]["a"] == h[j]["a"] and any(st["a"] == "rebind" and st["v"] == "a" for st in h[i + 1:j])
+                     for i in evs for j in evs if i < j)
+            if ok:
+                focus.append(((lst, atom), h))
+    rnd.shuffle(focus)
+    focus = focus[:(160 if not thorough else 3000)]
+    ev.cov["focused_histories"] = len(focus)
     # keep histories that evaluate at least once after a rebinding or twice in the same position
     exprs = expressions(rnd, 24 if not thorough else 300)
     starts = {"MCStartA": {"a": "ivec", "b": "int"}, "MCStartB": {"a": "mat", "b": "real"}}
+    for (lst, atom), h in focus:
+        starts[(lst, atom)] = {"a": lst, "b": atom}
     # plan all evaluations, ask TLC for the prescribed values in one run
     plans, cases = [], []
     rnd.shuffle(hists)
     per_hist = 3 if not thorough else 6
-    for (start, h) in hists[:(500 if not thorough else 5000)]:
-        for e in rnd.sample(exprs, per_hist):
+    nest = [e for e in exprs if is_nested_reduction(e)]
+    jobs = [(start, h, rnd.sample(exprs, per_hist)) for (start, h) in hists[:(500 if not thorough else 5000)]]
+    jobs += [(start, h, rnd.sample(nest, 4 if not thorough else 8) + rnd.sample(exprs, 2)) for (start, h) in focus]
+    for (start, h, es) in jobs:
+        for e in es:
             cls = dict(starts[start])
             steps = []
             for st in h:
